@@ -209,6 +209,7 @@ var c17NeutralPaths = []string{"a.txt", "data1", "out.log", "sub/f.txt", "notes"
 var c17ExtPaths = []string{"sp ace.txt", " lead", "trail ", "two  blanks", "-dash", "--", "-n", "st*r", "q?m", "br[a]ck", "a*", "semi;colon", "amp&er", "pipe|p", "lt<gt>",
 	"par(en)", "hash#", "#hash", "~tilde", "quo'te", "dq\"uote", "$dollar", "$HOME", "back\\slash", "tick`t", "tab\there", "sub/sp ace", "excl!", "br{a,b}ce", "eq=ual", "per%cent", "$(id)", "new\nline", "out:~", "~", "a:~:b", "50%.txt", "100%", "a%%b", "%s.log",
 	// names that are operators or options of the commands a script is likely to hand them to (test, [, cat, printf)
+	"~/notes.txt", "~/x", "~user/x",
 	"=", "==", "!=", "=~", "-nt", "-ot", "-ef", "-eq", "-a", "-o", "!", "(", ")", "<", ">", "-e", "-f", "-z", "-L", "-v", "[", "]", "-", "sub/=", "sub/-nt"}
 var c17NeutralContents = []string{"Hello World", "Hello Moon", "abc", "42", "line one", "x", "The quick brown fox", "key=value", "a,b,c", "UPPER lower 123", "dots.and-dashes_ok", "path/like/value",
 	// words that end or start something in a shell script when they stand alone on a line
@@ -315,6 +316,13 @@ func c17Gen(rng *gen.Rng, population string) *c17Hist {
 	files := map[string]bool{}
 	dirs := map[string]bool{"sub": true}
 	h.Ops = append(h.Ops, c17Op{Kind: "ext-mkdir", Path: "sub"})
+	for _, p := range paths {
+		// (a path of the pool that lies in another directory, e.g. one literally named "~")
+		if i := strings.LastIndex(p, "/"); i > 0 && !dirs[p[:i]] {
+			dirs[p[:i]] = true
+			h.Ops = append(h.Ops, c17Op{Kind: "ext-mkdir", Path: p[:i]})
+		}
+	}
 	// some files exist before the first script starts, created by something else than write()
 	if rng.Chance(30) {
 		for k := rng.Range(1, 2); k > 0; k-- {
@@ -1439,7 +1447,7 @@ func c17RunX(r *Run, h *c17Hist, seed uint64, st *c17Stats, harvest *[]string) (
 		ctx, cancel := context.WithTimeout(context.Background(), bashWatchdog)
 		cmd := exec.CommandContext(ctx, "/bin/bash", "-c", `ulimit -t 2; ulimit -n 256; exec /bin/bash "$0"`, script)
 		cmd.Dir = priv
-		cmd.Env = []string{"PATH=/usr/local/bin:/usr/bin:/bin", "LC_ALL=C.UTF-8"}
+		cmd.Env = []string{"PATH=/usr/local/bin:/usr/bin:/bin", "LC_ALL=C.UTF-8", "HOME=/nonexistent/home of the c17 user", "USER=c17", "TMPDIR=/nonexistent/tmp of the c17 user"}
 		cmd.Stdout, cmd.Stderr = &limitedWriter{w: &so, n: 32 << 20}, &limitedWriter{w: &se, n: 4096}
 		cmd.Stdin = strings.NewReader("")
 		cmd.SysProcAttr = &syscall.SysProcAttr{Setpgid: true}
